@@ -65,6 +65,7 @@ META = {
 
 EPS = common.EPS
 DT = {"float64": torch.float64, "float32": torch.float32}
+CORPUS_SEED = 20260925      # the corner corpus, the sweeps, the histories and the probes never depend on VERIF_SEED
 
 
 def pp():
@@ -156,6 +157,9 @@ def build_points(case) -> torch.Tensor:
             elif kind == "steps":
                 j = rnd.randint(0, N)
                 col = [0.0 if i < j else sc for i in range(N)]
+            elif kind == "extreme":  # class 1: every coordinate on its own extreme magnitude
+                m = [1e-30, 1e-12, 1.0, 1e12, 1e30, 1e-3][(b + d) % 6]
+                col = [rnd.gauss(0, 1) * m for _ in range(N)]
             else:  # mixed magnitudes per coordinate
                 m = 10 ** rnd.uniform(-3, 3)
                 col = [rnd.gauss(0, 1) * m for _ in range(N)]
@@ -369,14 +373,14 @@ def gen_chs_cases(ctx: Ctx, n: int):
 
 def sweep_chs_cases(ctx: Ctx):
     """every point count 2..60 once (cheap settings) — particular lengths must not escape"""
-    rng = ctx.rng
+    rng = random.Random(CORPUS_SEED + 1)
     return [{"kind": "chs", "dtype": "float64" if N % 3 else "float32", "N": N, "D": 1 + N % 3, "batch": [] if N % 2 else [2],
              "interval": [0.5, 0.25, 0.4][N % 3], "pts": "randn", "scale": 1.0, "seed": rng.randrange(1 << 30)}
             for N in range(2, 61)]
 
 
 def run_chs(ctx: Ctx, mb: MB, n: int):
-    for case in (sweep_chs_cases(ctx) if n else []) + gen_chs_cases(ctx, n):
+    for case in gen_chs_cases(ctx, n):
         check_chs(ctx, case, mb)
         ctx.note_case(("chs", case["dtype"], case["N"], case["D"], len(case["batch"]), case["interval"], case["pts"]),
                       case["pts"] != "const")
@@ -566,7 +570,7 @@ def _check_bs(ctx: Ctx, case, mb: MB) -> None:
         T0, xi = info[b]["T0"], info[b]["xi"]
         qt, tt = bs_tols(eps, d64[b], us)
         tt = tt + 256 * eps * (N + 2) * float(np.abs(np.array(xi[:3])).max())
-        ns = sorted({rnd.randrange(L) for _ in range(min(L, 24))} | {0, L - 1})
+        ns = sorted({rnd.randrange(L) for _ in range(min(L, 10))} | {0, L - 1})
         for n in ns:
             if n == L - 1:
                 seg, u = nseg - 1, 1.0
@@ -667,7 +671,7 @@ def gen_bs_cases(ctx: Ctx, n: int):
 
 def sweep_bs_cases(ctx: Ctx):
     """every pose count 1..60 (extrapolate) / 4..60 once; the model is consulted for the short ones only"""
-    rng = ctx.rng
+    rng = random.Random(CORPUS_SEED + 2)
     out = []
     for N in range(1, 61):
         for ex in (True, False):
@@ -682,7 +686,7 @@ def sweep_bs_cases(ctx: Ctx):
 
 def run_bs(ctx: Ctx, mb: MB, n: int):
     P = pp()
-    for case in (sweep_bs_cases(ctx) if n else []) + gen_bs_cases(ctx, n):
+    for case in gen_bs_cases(ctx, n):
         check_bs(ctx, case, mb)
         ctx.note_case(("bs", case["dtype"], case["N"], len(case["batch"]), case["interval"], case["extrapolate"], case["gen"], case["rot"]),
                       case["N"] >= 2)
@@ -797,7 +801,7 @@ def _check_geo(ctx: Ctx, case, mb: MB) -> None:
     eps = EPS[dtype]
     X, Y, so, angs = build_geo(case)
     bx, by = X.tensor().clone(), Y.tensor().clone()
-    tol = 16 * eps          # absolute part (unit quaternions carry eps absolute noise); + 16 eps relative to the angle below
+    tol = 24 * eps          # absolute: unit quaternions carry eps absolute noise, angles are <= pi (no magnitude factor)
     try:
         with warnings.catch_warnings():
             warnings.simplefilter("ignore")
@@ -855,6 +859,25 @@ def _check_geo(ctx: Ctx, case, mb: MB) -> None:
             ctx.fail(pub(case), f"geo-inv: angle changes by {e:.3e} when both rotations are multiplied by the same rotation")
     except Exception as e:
         ctx.fail(pub(case), f"geo-raises: geodesic_loss raised on SO3 inputs: {excs(e)}")
+    # class 4: the shared module object keeps its public attributes
+    if case["api"] == "module":
+        for rd_ in ("none", case["reduction"]):
+            m, snap = geo_module(rd_)
+            now = {k_: v for k_, v in vars(m).items() if not k_.startswith("_")}
+            if now != snap:
+                ctx.fail(pub(case), f"geo-state: GeodesicLoss(reduction={rd_!r}) changed its public attributes during a call: {snap} -> {now}")
+    # class 7: items of a (mixed-regime) batch = the same call on each item alone
+    Xb = torch.broadcast_to(X.tensor(), so + (X.shape[-1],)).reshape(-1, X.shape[-1])
+    Yb = torch.broadcast_to(Y.tensor(), so + (Y.shape[-1],)).reshape(-1, Y.shape[-1])
+    for j in sorted({rnd.randrange(xe.shape[0]) for _ in range(3)}):
+        try:
+            with warnings.catch_warnings():
+                warnings.simplefilter("ignore")
+                alone = P.geodesic_loss(P.LieTensor(Xb[j].clone(), ltype=X.ltype), P.LieTensor(Yb[j].clone(), ltype=Y.ltype), reduction="none")
+            if not abs(float(alone) - float(n64[j])) <= 4 * eps:
+                ctx.fail(pub(case), f"geo-batch: item {j} in the batch gives {float(n64[j])!r}, alone {float(alone)!r} (relative angle regime differs from its neighbours)")
+        except Exception as e:
+            ctx.fail(pub(case), f"geo-raises: geodesic_loss raised on a single item: {excs(e)}")
     # model: items
     items = sorted({rnd.randrange(xe.shape[0]) for _ in range(4)})
     for j in items:
@@ -864,6 +887,7 @@ def _check_geo(ctx: Ctx, case, mb: MB) -> None:
             want = nums(rep)[0]
             if not abs(got - want) <= tol:
                 ctx.disagree("geo", pub(case), f"item {j}: implementation {got!r} model {want!r} (tol {tol:.3e})")
+                ctx.fail(pub(case), f"geo-value: geodesic_loss item {j} is {got!r}, |Log(x y^-1)| of the rotation parts {xe[j].tolist()} / {ye[j].tolist()} is {want!r} ({dtype})")
         mb.add(f"c19.geo {to_wire(eps)} " + wire_list(xe[j].tolist() + ye[j].tolist()), cb)
 
 
@@ -932,6 +956,15 @@ def build_traj(case):
         est_full = full.copy()
     elif ek == "independent":
         est_full = R.walk(rnd, M, ts, rot)
+    elif ek == "regimes":
+        # class 7: the error rotation of consecutive poses runs through every regime of mat2SO3 / Log inside ONE call:
+        # 0, ~eps, tiny, ordinary, > pi/2 about each axis (the three trace-negative branches), pi - 1e-6, exactly pi
+        angs = [0.0, 1e-15, 1e-9, 1e-4, 0.3, 2.0, 2.8, math.pi - 1e-6, math.pi, 3.0, 1.5]
+        axes = [np.array([1.0, 0, 0]), np.array([0, 1.0, 0]), np.array([0, 0, 1.0]), np.array([1.0, 1.0, 0]) / math.sqrt(2),
+                np.array([-1.0, 2.0, 0.5]) / math.sqrt(5.25)]
+        est_full = np.stack([R.se3_vec(R.se3_mul((p[:3], p[3:]), R.se3_exp(np.concatenate(
+            [R.rand_unit(rnd) * case["noise"] * max(ts, 1e-3), axes[(i // len(angs)) % len(axes)] * angs[i % len(angs)]]))))
+            for i, p in enumerate(full)])
     else:
         nz_t, nz_r = case["noise"] * max(ts, 1e-3), case["noise"]
         est_full = np.stack([R.se3_vec(R.se3_mul((p[:3], p[3:]), R.se3_exp(np.concatenate([R.rand_unit(rnd) * nz_t * rnd.uniform(0, 1), R.rand_unit(rnd) * nz_r * rnd.uniform(0, 1)])))) for p in full])
@@ -1079,8 +1112,9 @@ def svd_T(ctx, case, B, ir, ie, with_scale):
     s, Rm, t, D = R.umeyama(est, ref, with_scale)
     c_np = R.align_cost(s, Rm, t, est, ref)
     c_im = R.align_cost(T[7], R.rot_from_quat(T[3:7]), T[:3], est, ref)
-    sc = float((ref ** 2).sum() + (est ** 2).sum()) + 1e-300
-    if not c_im <= c_np * (1 + 1e-9) + 1e-12 * sc:
+    sc = float(((ref - ref.mean(0)) ** 2).sum() + (T[7] ** 2) * ((est - est.mean(0)) ** 2).sum() + (np.abs(ref).max() * EPS64 * 16) ** 2) + 1e-300
+    # rounding of the cost itself only: residuals carry ~eps*scale absolute noise -> 64 eps sqrt(cost*sc) + (32 eps)^2 sc
+    if not c_im <= c_np + 64 * EPS64 * math.sqrt(c_np * sc) + (32 * EPS64) ** 2 * sc * len(est):
         ctx.fail(pub(case), f"svdstf-contract: svdstf alignment cost {c_im:.6e} exceeds the optimum {c_np:.6e} (with_scale={with_scale}, {len(est)} points)")
     cond = float(D[1] / D[0]) if D[0] > 0 else 0.0
     return T, cond
@@ -1097,6 +1131,10 @@ def model_mode(mode):
 
 
 def check_traj(ctx: Ctx, case, mb: MB) -> None:
+    guard(ctx, case, "traj", lambda: _check_traj(ctx, case, mb))
+
+
+def _check_traj(ctx: Ctx, case, mb: MB) -> None:
     A = AR()
     P = pp()
     B = build_traj(case)
@@ -1125,6 +1163,7 @@ def check_traj(ctx: Ctx, case, mb: MB) -> None:
         ctx.fail(pub(case), f"ape-type: ape returned {type(res).__name__} with keys {sorted(res) if isinstance(res, dict) else None}")
         return
     vals = stat_vals(res)
+    case["_vals"] = vals
     check_order(ctx, case, f"ape etype={case['etype']} mode={mode}", vals)
     # discrete: association against the model and the oracle
     try:
@@ -1169,7 +1208,7 @@ def check_traj(ctx: Ctx, case, mb: MB) -> None:
     es_m = B["es_o"]
 
     if dtype == "float32":   # float32 quaternions are unit only to eps32: formulas that agree on unit quaternions may differ
-        tau = tau + 64 * EPS[dtype] * (1 + ts) * (180 / math.pi if case["etype"] == "degree" else 1)
+        tau = tau + 16 * EPS[dtype] * (1 + ts) * (180 / math.pi if case["etype"] == "degree" else 1)
 
     def cba(rep, vals=vals, tau=tau):
         st, toks = common.parse_reply(rep)
@@ -1193,7 +1232,7 @@ def check_traj(ctx: Ctx, case, mb: MB) -> None:
         ea = R.apply_sim(T[7], np.array(T[3:7]), np.array(T[:3]), ep_a)
     else:
         ea = ep_a
-    unit_slack0 = 64 * EPS[dtype] * (1 + ts) * (180 / math.pi if case["etype"] == "degree" else 1) if dtype == "float32" else 0.0
+    unit_slack0 = 16 * EPS[dtype] * (1 + ts) * (180 / math.pi if case["etype"] == "degree" else 1) if dtype == "float32" else 0.0
     want = np_stats(np_rel_errors(case["etype"], rp_a, ea, False))
     bad = stats_close(vals, want, 8 * tau + unit_slack0, n)
     if bad:
@@ -1210,7 +1249,7 @@ def check_traj(ctx: Ctx, case, mb: MB) -> None:
     except Exception as e:
         ctx.fail(pub(case), f"ape-raises: ape(otype={ot!r}) raised {excs(e)}")
     eps_in = EPS[dtype]
-    unit_slack = 64 * eps_in * (1 + ts) if dtype == "float32" else 0.0
+    unit_slack = 16 * eps_in * (1 + ts) if dtype == "float32" else 0.0
     # oracle: identical trajectories -> zero statistics (every etype, this mode)
     rnd = random.Random(case["seed"] + 7)
     try:
@@ -1313,6 +1352,7 @@ def check_rpe(ctx: Ctx, case, mb: MB, B, Tsvd, cond, ts, rnd) -> None:
         ctx.fail(pub(case), f"rpe-type: rpe returned {type(res).__name__}")
         return
     vals = stat_vals(res)
+    case["_rvals"] = vals
     m = len(pairs)
     check_order(ctx, case, f"rpe etype={rk['etype']}", vals)
     ot = case["otype"]
@@ -1347,7 +1387,7 @@ def check_rpe(ctx: Ctx, case, mb: MB, B, Tsvd, cond, ts, rnd) -> None:
              f"{0 if rk['associate'] == 'frame' else 1} {int(rk['delta'])} {to_wire(rk['delta'])} {to_wire(rk['rtol'])} {1 if rk['all'] else 0} {1 if rk['rpair'] else 0}")
 
     if dtype == "float32":
-        tau = tau + 64 * EPS[dtype] * (1 + tsr) * (180 / math.pi if rk["etype"] == "degree" else 1)
+        tau = tau + 16 * EPS[dtype] * (1 + tsr) * (180 / math.pi if rk["etype"] == "degree" else 1)
 
     def cbr(rep, vals=vals, tau=tau):
         st_, toks = common.parse_reply(rep)
@@ -1361,7 +1401,7 @@ def check_rpe(ctx: Ctx, case, mb: MB, B, Tsvd, cond, ts, rnd) -> None:
             i = STAT_KEYS.index(bad)
             ctx.disagree("rpe", pub(case), f"rpe etype={rk['etype']} mode={mode} {rk['associate']} delta={rk['delta']} all={rk['all']} rpair={rk['rpair']} ({mm} pairs): {bad} implementation {vals[i]!r} model {w[mm:][i]!r} (item tol {tau:.3e})")
     mb.add(f"c19.rpe {eline} {traj_line(B['rs_o'], B['rp'])} {traj_line(B['es_o'], B['ep'])}", cbr)
-    unit_slack = 64 * EPS[dtype] * (1 + tsr) * (180 / math.pi if rk["etype"] == "degree" else 1) if dtype == "float32" else 0.0
+    unit_slack = 16 * EPS[dtype] * (1 + tsr) * (180 / math.pi if rk["etype"] == "degree" else 1) if dtype == "float32" else 0.0
     # oracle: the documented definition evaluated independently on the relative poses of the index pairs
     si, ti = [p[0] for p in pairs], [p[1] for p in pairs]
 
@@ -1424,7 +1464,7 @@ def gen_traj_cases(ctx: Ctx, n: int):
             delta = ts * rng.uniform(0.5, 3.0)
         cases.append({"kind": "traj", "dtype": rng.choice(["float64", "float64", "float64", "float32"]), "M": M, "tscale": ts,
                       "tstep": ts * rng.choice([0.2, 1.0]), "rot": rng.choice([0.0, 1e-3, 0.1, 0.5, 1.5]),
-                      "est": rng.choice(["noisy", "noisy", "transformed", "identical", "independent"]),
+                      "est": rng.choice(["noisy", "noisy", "transformed", "identical", "independent", "regimes"]),
                       "noise": rng.choice([1e-6, 1e-2, 0.3]),
                       "stamps": rng.choice(["none", "same", "jitter", "jitter", "sub", "extra", "unmatched"]),
                       "none_shorter": rng.random() < 0.3, "t0": rng.choice([0.0, 100.0, 1311868163.87]), "dt": dt, "diff": diff,
@@ -1452,15 +1492,418 @@ def run_traj(ctx: Ctx, mb: MB, n: int):
         ctx.sample({"stream": "traj", **pub(case)}, cap=30)
 
 
+# ============================================================================= hardening: corpus, histories, stale reads, views
+
+def corpus_chs():
+    c = []
+    sd = CORPUS_SEED
+    base = dict(kind="chs", scale=1.0, pts="randn")
+    for i, (N, D, batch, iv, dt_, pts) in enumerate([
+            (2, 1, [], 1 - 2 ** -53, "float64", "randn"), (2, 6, [2], 0.999, "float32", "randn"), (60, 6, [2], 0.1, "float64", "randn"),
+            (60, 1, [], 0.5, "float32", "lattice"), (5, 7, [], 0.25, "float64", "randn"), (4, 3, [2, 1, 2], 0.3, "float64", "randn"),
+            (3, 2, [], 0.004, "float64", "randn"), (4, 2, [], 2 ** -7, "float32", "randn"), (6, 3, [], 1 / 3, "float64", "randn"),
+            (6, 3, [], 1 / 7, "float32", "randn"), (9, 2, [], 0.3333333333333332, "float64", "randn"), (7, 6, [3], 0.4, "float64", "extreme"),
+            (7, 6, [3], 0.4, "float32", "extreme"), (12, 4, [2, 3], 0.15, "float64", "mixed"), (3, 1, [1], 0.7, "float64", "steps"),
+            (8, 2, [], 0.45, "float64", "const"), (8, 2, [], 0.45, "float64", "line"), (5, 3, [], 0.6, "float64", "lattice")]):
+        c.append({**base, "N": N, "D": D, "batch": batch, "interval": iv, "dtype": dt_, "pts": pts, "seed": sd + 100 + i})
+    return c
+
+
+def corpus_bs():
+    c = []
+    sd = CORPUS_SEED
+    for i, (N, batch, iv, ex, gen, rot, ts, dt_, flip) in enumerate([
+            (4, [], 0.5, False, "walk", 0.5, 1.0, "float64", False), (4, [], 1 / 3, False, "random", 0.0, 1.0, "float64", False),
+            (1, [], 0.5, True, "walk", 0.5, 1.0, "float64", False), (2, [], 0.1, True, "walk", 1.0, 1.0, "float32", False),
+            (3, [2], 0.3, True, "walk", 2.0, 100.0, "float64", True), (60, [], 0.5, False, "walk", 0.3, 1.0, "float64", False),
+            (60, [], 0.5, True, "twist", 0.05, 1.0, "float64", False), (5, [], 0.02, False, "walk", 0.7, 1.0, "float64", False),
+            (5, [], 0.999, False, "walk", 0.7, 1.0, "float64", False), (6, [9], 0.4, False, "mixed", 0.0, 1.0, "float64", False),
+            (6, [9], 0.4, True, "mixed", 0.0, 1.0, "float32", False), (7, [3, 3], 0.25, True, "mixed", 0.0, 1.0, "float64", True),
+            (6, [], 0.3, False, "walk", 1e-16, 1.0, "float64", False), (6, [], 0.3, False, "walk", 2.3e-16, 1e-6, "float64", False),
+            (6, [], 0.3, False, "walk", 1e-10, 1e4, "float64", False), (6, [], 0.3, False, "walk", 0.0, 0.0, "float64", False),
+            (6, [], 0.3, False, "walk", 3.1, 1.0, "float64", False), (8, [], 0.3, False, "twist", math.pi - 0.1, 1e4, "float64", False),
+            (8, [], 0.3, True, "twist", 1e-10, 1e-6, "float64", False), (8, [], 0.3, False, "twist", 1.2e-7, 1.0, "float32", False),
+            (9, [2], 0.6, False, "repeat", 0.5, 1.0, "float64", True), (3, [], 0.5, False, "walk", 0.5, 1.0, "float64", False)]):
+        c.append({"kind": "bs", "dtype": dt_, "N": N, "batch": batch, "interval": iv, "extrapolate": ex, "gen": gen, "rot": rot,
+                  "tscale": ts, "flip": flip, "continuity": 2 if i % 3 == 0 else 0, "seed": sd + 200 + i})
+    return c
+
+
+def corpus_geo():
+    c = []
+    shapes = [([], []), ([3], [3]), ([2, 3], [3]), ([1], [4]), ([2, 1], [1, 3]), ([5], [])]
+    i = 0
+    for dt_ in ("float64", "float32"):
+        for tx in GEO_TYPES:
+            sx, sy = shapes[i % len(shapes)]
+            c.append({"kind": "geo", "dtype": dt_, "type_x": tx, "type_y": GEO_TYPES[(i * 3 + 1) % 8] if i % 2 else tx, "shape_x": sx,
+                      "shape_y": sy, "reduction": ["none", "mean", "sum"][i % 3], "api": ["fn", "module"][i % 2], "seed": CORPUS_SEED + 300 + i})
+            i += 1
+    return c
+
+
+def traj_case(i, **kw):
+    base = {"kind": "traj", "dtype": "float64", "M": 8, "tscale": 1.0, "tstep": 1.0, "rot": 0.3, "est": "noisy", "noise": 1e-2,
+            "stamps": "jitter", "none_shorter": False, "t0": 100.0, "dt": 0.1, "diff": 0.01, "offset": 0.0, "etype": "translation",
+            "mode": "none", "otype": STAT_KEYS[i % 7],
+            "rpe": {"etype": ETYPES[i % 5], "mode": "none", "associate": "frame", "delta": 1.0, "rtol": 0.1, "all": False, "rpair": False},
+            "seed": CORPUS_SEED + 400 + i}
+    rk = kw.pop("rpe", None)
+    base.update(kw)
+    if rk:
+        base["rpe"] = {**base["rpe"], **rk}
+    return base
+
+
+def corpus_traj():
+    c = []
+    i = 0
+    for et in ETYPES:                       # every error type x every alignment mode
+        for mode in MODES:
+            c.append(traj_case(i, etype=et, mode=mode, M=7 + i % 5, est=["noisy", "transformed", "regimes"][i % 3],
+                               stamps=["jitter", "same", "sub", "extra", "unmatched", "none"][i % 6],
+                               rpe={"mode": ["none", "origin", "align", "align+scale"][i % 4], "associate": ["frame", "distance"][i % 2],
+                                    "delta": [1.0, 2.0, 1.7, 0.9][i % 4], "all": bool(i % 2), "rpair": bool((i // 2) % 2)}))
+            i += 1
+    for kw in (dict(M=3), dict(M=200, dt=0.033, diff=0.033 / 12), dict(tscale=1e-6, tstep=1e-6), dict(tscale=1e4, tstep=1e4),
+               dict(t0=1311868163.87, offset=0.5, stamps="sub"), dict(offset=-3.25, stamps="extra"), dict(offset=1000.0, stamps="jitter"),
+               dict(dtype="float32", est="transformed", mode="align+scale", etype="pose"), dict(est="identical", mode="align", etype="radian"),
+               dict(est="regimes", M=60, etype="radian", rpe={"etype": "degree"}), dict(est="regimes", M=60, etype="rotation", mode="origin"),
+               dict(est="regimes", M=33, etype="pose", mode="align"), dict(est="independent", etype="degree", mode="scale"),
+               dict(rot=0.0, est="noisy", mode="align", etype="translation"), dict(rot=1.5, tstep=0.2, mode="align+scale"),
+               dict(stamps="none", none_shorter=True), dict(rpe={"associate": "distance", "delta": 1e6}),
+               dict(rpe={"associate": "frame", "delta": 50.0}), dict(rpe={"associate": "distance", "delta": 0.8, "all": True, "rpair": True, "rtol": 0.3}),
+               dict(rpe={"associate": "frame", "delta": 2.7, "all": True})):
+        c.append(traj_case(i, **kw))
+        i += 1
+    return c
+
+
+def run_corpus(ctx: Ctx, mb: MB):
+    """class 2: deterministic corner corpus + exhaustive length sweeps, identical for every seed, run FIRST"""
+    for fn, cases, tag in ((check_chs, corpus_chs() + sweep_chs_cases(ctx), "chs"), (check_bs, corpus_bs() + sweep_bs_cases(ctx), "bs"),
+                           (check_geo, corpus_geo(), "geo"), (check_traj, corpus_traj(), "traj")):
+        for case in cases:
+            fn(ctx, case, mb)
+            ctx.note_case(("corpus", tag, json_sig(case)), True)
+            ctx.count(f"corpus.{tag}")
+
+
+def json_sig(case):
+    import json
+    return json.dumps(pub(case), sort_keys=True, default=str)
+
+
+def same_bits(a, b):
+    a = a.tensor() if hasattr(a, "ltype") else a
+    b = b.tensor() if hasattr(b, "ltype") else b
+    return isinstance(a, torch.Tensor) and isinstance(b, torch.Tensor) and a.shape == b.shape and a.dtype == b.dtype and \
+        torch.equal(torch.nan_to_num(a, nan=1234.5), torch.nan_to_num(b, nan=1234.5))
+
+
+def run_history(ctx: Ctx, mb: MB):
+    """class 4: the functions (and the one GeodesicLoss object) are called in long sequences in which consecutive calls differ
+    in exactly one per-call argument (dtype, interval with the SAME sample count, interval, N, batch, extrapolate, data, options);
+    every call is fully checked (model + oracles) and repeating the first call at the end must reproduce it bit for bit"""
+    sd = CORPUS_SEED + 500
+    # --- chspline
+    b0 = {"kind": "chs", "dtype": "float64", "N": 6, "D": 2, "batch": [], "interval": 0.3, "pts": "randn", "scale": 1.0, "seed": sd}
+    seq = [b0, {**b0, "dtype": "float32"}, b0, {**b0, "interval": 0.26}, {**b0, "interval": 0.3}, {**b0, "interval": 0.45}, {**b0, "N": 7},
+           {**b0, "D": 3}, {**b0, "batch": [2]}, {**b0, "seed": sd + 1}, {**b0, "scale": 1e3}, {**b0, "pts": "line"}, b0]
+    first = None
+    for i, c in enumerate(seq):
+        c = dict(c)
+        check_chs(ctx, c, mb)
+        ctx.note_case(("history", "chs", i), True)
+        ctx.count("history.chs")
+        if i == 0:
+            first = c.get("_out")
+        elif i == len(seq) - 1 and first is not None and not same_bits(first, c.get("_out")):
+            ctx.fail(pub(c) | {"history": "chs", "step": i}, "history-repeat: chspline called again with the arguments of the first call (after calls with other dtype / interval / N / D / batch / data) returns different bits")
+    # --- bspline
+    b0 = {"kind": "bs", "dtype": "float64", "N": 6, "batch": [], "interval": 0.3, "extrapolate": False, "gen": "walk", "rot": 0.6,
+          "tscale": 1.0, "flip": False, "continuity": 0, "seed": sd + 10}
+    seq = [b0, {**b0, "dtype": "float32"}, b0, {**b0, "interval": 0.26}, {**b0, "interval": 0.3}, {**b0, "interval": 0.45},
+           {**b0, "interval": 0.26, "dtype": "float32"}, {**b0, "N": 7}, {**b0, "batch": [2]}, {**b0, "extrapolate": True},
+           {**b0, "extrapolate": True, "N": 2}, {**b0, "seed": sd + 11}, {**b0, "gen": "twist", "rot": 1.0}, {**b0, "tscale": 1e4}, b0]
+    first = None
+    for i, c in enumerate(seq):
+        c = dict(c)
+        check_bs(ctx, c, mb)
+        ctx.note_case(("history", "bs", i), True)
+        ctx.count("history.bs")
+        if i == 0:
+            first = c.get("_out")
+        elif i == len(seq) - 1 and first is not None and not same_bits(first, c.get("_out")):
+            ctx.fail(pub(c) | {"history": "bs", "step": i}, "history-repeat: bspline called again with the arguments of the first call (after calls with other dtype / interval / N / batch / extrapolate / data) returns different bits")
+    # --- geodesic: one module object per reduction through types, dtypes, shapes
+    g0 = {"kind": "geo", "dtype": "float64", "type_x": "SO3", "type_y": "SO3", "shape_x": [3], "shape_y": [3], "reduction": "mean",
+          "api": "module", "seed": sd + 20}
+    for i, c in enumerate([g0, {**g0, "dtype": "float32"}, {**g0, "type_x": "Sim3", "type_y": "se3"}, {**g0, "shape_x": [2, 3], "shape_y": [1]},
+                           {**g0, "reduction": "sum"}, {**g0, "reduction": "none"}, {**g0, "api": "fn"}, g0]):
+        check_geo(ctx, dict(c), mb)
+        ctx.note_case(("history", "geo", i), True)
+        ctx.count("history.geo")
+    # --- ape / rpe: one data set, every option varied call after call, first call repeated at the end
+    t0 = traj_case(900, M=12, stamps="sub", offset=0.5)
+    seq = [t0] + [traj_case(900, M=12, stamps="sub", offset=0.5, etype=et, mode=mode, otype=STAT_KEYS[(j * 3) % 7],
+                            rpe={"etype": ETYPES[(j + 2) % 5], "mode": ["none", "origin", "align", "align+scale"][j % 4],
+                                 "associate": ["frame", "distance"][j % 2], "delta": [1.0, 2.0, 1.3][j % 3], "all": bool(j % 2), "rpair": bool(j % 3 == 0)})
+                  for j, (et, mode) in enumerate([(e_, m_) for e_ in ETYPES for m_ in ("none", "origin", "align", "scale", "align+scale")][::2])] + [t0]
+    first = None
+    for i, c in enumerate(seq):
+        c = dict(c)
+        c["seed"] = t0["seed"]
+        check_traj(ctx, c, mb)
+        ctx.note_case(("history", "traj", i), True)
+        ctx.count("history.traj")
+        v = (c.get("_vals"), c.get("_rvals"))
+        if i == 0:
+            first = v
+        elif i == len(seq) - 1 and first is not None and first[0] is not None:
+            if repr(first) != repr(v):
+                ctx.fail(pub(c) | {"history": "traj", "step": i}, f"history-repeat: ape/rpe repeated with the first call's arguments after {len(seq) - 2} calls with other options gives other statistics: {first} vs {v}")
+
+
+def stale_check(ctx, case, name, call, update_names_fns):
+    """class 5: call, update the caller's tensors IN PLACE, call again: the second result must be the one a fresh clone gives"""
+    try:
+        call(False)                                    # first read (a cache would be filled here)
+        for uname, upd in update_names_fns:
+            upd()
+            got, ref = call(False), call(True)
+            ctx.note_case(("stale", name, uname), True)
+            ctx.count(f"stale.{name}")
+            ok = all(same_bits(g, r) for g, r in zip(got, ref)) and len(got) == len(ref)
+            if not ok:
+                ctx.fail(case | {"update": uname}, f"stale: {name} after the in-place update '{uname}' of its argument differs from the same call on fresh clones of the updated arguments")
+                return
+    except Exception as e:
+        ctx.fail(case, f"stale-raises: {name} raised in the in-place update probe: {excs(e)}")
+
+
+def run_stale(ctx: Ctx):
+    P = pp()
+    A = AR()
+    rnd = random.Random(CORPUS_SEED + 600)
+    for dtype in ("float64", "float32"):
+        D_ = DT[dtype]
+        # chspline
+        pts = torch.tensor([[rnd.gauss(0, 1) for _ in range(3)] for _ in range(7)], dtype=torch.float64).to(D_)
+        other = torch.tensor([[rnd.gauss(0, 3) for _ in range(3)] for _ in range(7)], dtype=torch.float64).to(D_)
+        case = {"kind": "stale", "fn": "chspline", "dtype": dtype}
+        stale_check(ctx, case, "chspline", lambda fresh: (P.chspline(pts.clone() if fresh else pts, 0.3),),
+                    [("add_", lambda: pts.add_(1.5)), ("copy_", lambda: pts.copy_(other)), ("setitem", lambda: pts.__setitem__((2, slice(None)), torch.tensor([9.0, -9.0, 0.5]).to(D_))),
+                     ("mul_", lambda: pts.mul_(-2.0))])
+        # bspline
+        Xd = torch.tensor(R.walk(rnd, 7, 1.0, 0.7)).to(D_)
+        X = P.LieTensor(Xd, ltype=P.SE3_type)
+        Xo = P.LieTensor(torch.tensor(R.walk(rnd, 7, 2.0, 1.1)).to(D_), ltype=P.SE3_type)
+        a = torch.tensor([[rnd.gauss(0, 0.3) for _ in range(6)] for _ in range(7)], dtype=torch.float64).to(D_)
+        case = {"kind": "stale", "fn": "bspline", "dtype": dtype}
+        for ex in (False, True):
+            stale_check(ctx, case | {"extrapolate": ex}, "bspline", lambda fresh, ex=ex: (P.bspline(X.clone() if fresh else X, 0.4, extrapolate=ex),),
+                        [("add_", lambda: X.add_(a)), ("copy_", lambda: X.copy_(Xo)), ("setitem", lambda: X.__setitem__(3, Xo[0])), ("add_ again", lambda: X.add_(a * 0.5))])
+        # geodesic (function and one module object)
+        x = P.LieTensor(torch.tensor(R.walk(rnd, 4, 1.0, 0.9)).to(D_), ltype=P.SE3_type)
+        y = P.LieTensor(torch.tensor(R.walk(rnd, 4, 1.0, 0.9)).to(D_), ltype=P.SE3_type)
+        mod = P.module.GeodesicLoss(reduction="none")
+        case = {"kind": "stale", "fn": "geodesic_loss", "dtype": dtype}
+        stale_check(ctx, case, "geodesic_loss", lambda fresh: (P.geodesic_loss(x.clone() if fresh else x, y.clone() if fresh else y, reduction="none"),
+                                                                   mod(x.clone() if fresh else x, y.clone() if fresh else y)),
+                    [("x.add_", lambda: x.add_(a[:4])), ("y.copy_", lambda: y.copy_(x)), ("y.add_", lambda: y.add_(a[1:5])), ("x.setitem", lambda: x.__setitem__(0, y[2]))])
+    # ape / rpe: poses AND stamps updated in place
+    M = 9
+    rs = torch.arange(M, dtype=torch.float64) * 0.1
+    es = rs + 0.002
+    rp = P.SE3(torch.tensor(R.walk(rnd, M, 1.0, 0.4)))
+    ep = P.SE3(torch.tensor(R.walk(rnd, M, 1.0, 0.4)))
+    aa = torch.tensor([[rnd.gauss(0, 0.2) for _ in range(6)] for _ in range(M)], dtype=torch.float64)
+    case = {"kind": "stale", "fn": "ape/rpe"}
+
+    def call(fresh):
+        c = (lambda t: t.clone()) if fresh else (lambda t: t)
+        with warnings.catch_warnings():
+            warnings.simplefilter("ignore")
+            r1 = A.ape(c(rs), c(rp), c(es), c(ep), etype="pose", align=True, scale=True)
+            r2 = A.rpe(c(rs), c(rp), c(es), c(ep), etype="radian", associate="distance", delta=0.7, all=True)
+            r3 = A.ape(c(rs), c(rp), c(es), c(ep), etype="translation", offset=0.001, origin=True)
+        return tuple(torch.stack([r[k_] for k_ in STAT_KEYS]) for r in (r1, r2, r3))
+    stale_check(ctx, case, "ape/rpe", call, [("epose.add_", lambda: ep.add_(aa)), ("rpose.copy_", lambda: rp.copy_(ep)), ("rpose.add_", lambda: rp.add_(aa * 0.3)),
+                                               ("estamp.add_", lambda: es.add_(0.003)), ("rstamp.mul_", lambda: rs.mul_(1.0001)), ("epose.setitem", lambda: ep.__setitem__(4, rp[1]))])
+
+
+def view_variants(t: torch.Tensor):
+    """the same values as `t` presented as (name, view, buffer): non-contiguous transpose, interior of a larger buffer filled with
+    sentinels, every second row of a strided buffer"""
+    out = []
+    buf = t.transpose(-1, -2).contiguous()
+    out.append(("transposed", buf.transpose(-1, -2), buf))
+    shp = list(t.shape)
+    shp[-1] += 2
+    shp[-2] += 2
+    buf = torch.full(shp, 777.0, dtype=t.dtype)
+    buf[..., 1:-1, 1:-1] = t
+    out.append(("interior of a larger buffer", buf[..., 1:-1, 1:-1], buf))
+    shp = list(t.shape)
+    shp[-2] *= 2
+    buf = torch.full(shp, -555.0, dtype=t.dtype)
+    buf[..., ::2, :] = t
+    out.append(("strided rows", buf[..., ::2, :], buf))
+    return out
+
+
+def close_or_equal(a, b, tol):
+    a = a.tensor() if hasattr(a, "ltype") else a
+    b = b.tensor() if hasattr(b, "ltype") else b
+    if not (isinstance(a, torch.Tensor) and isinstance(b, torch.Tensor)) or a.shape != b.shape or a.dtype != b.dtype:
+        return False
+    return bool(torch.equal(a, b)) or bool(((a.double() - b.double()).abs() <= tol).all())
+
+
+def run_views(ctx: Ctx):
+    """class 6: non-contiguous / embedded / expanded / aliased arguments: same result as on a contiguous private copy, argument and
+    the whole underlying buffer untouched, the same tensor passed for two arguments"""
+    P = pp()
+    A = AR()
+    rnd = random.Random(CORPUS_SEED + 700)
+    for dtype in ("float64", "float32"):
+        D_ = DT[dtype]
+        eps = EPS[dtype]
+        # chspline
+        t = torch.tensor([[[rnd.gauss(0, 1) for _ in range(3)] for _ in range(6)] for _ in range(2)], dtype=torch.float64).to(D_)
+        ref = P.chspline(t.clone(), 0.3)
+        for name, v, buf in view_variants(t):
+            case = {"kind": "views", "fn": "chspline", "dtype": dtype, "view": name}
+            snap = buf.clone()
+            ctx.note_case(("views", "chspline", dtype, name), True)
+            ctx.count("views.chspline")
+            try:
+                out = P.chspline(v, 0.3)
+                if not close_or_equal(out, ref, 8 * eps * 10):
+                    ctx.fail(case, f"views: chspline on a {name} view differs from the call on a contiguous copy")
+                if not torch.equal(buf, snap):
+                    ctx.fail(case, f"views-mutation: chspline wrote into the caller's buffer ({name})")
+            except Exception as e:
+                ctx.fail(case, f"views-raises: chspline raised on a {name} view: {excs(e)}")
+        case = {"kind": "views", "fn": "chspline", "dtype": dtype, "view": "expanded batch"}
+        try:
+            one = t[0]
+            out = P.chspline(one.expand(3, 6, 3), 0.3)
+            if not all(close_or_equal(out[i], ref[0], 8 * eps * 10) for i in range(3)) or not torch.equal(one, t[0]):
+                ctx.fail(case, "views: chspline on an expanded (stride-0) batch differs from the single item / changed it")
+        except Exception as e:
+            ctx.fail(case, f"views-raises: chspline raised on an expanded batch: {excs(e)}")
+        # bspline
+        Xd = torch.tensor(np.stack([R.walk(rnd, 6, 1.0, 0.7), R.walk(rnd, 6, 1.0, 0.7)])).to(D_)
+        for ex in (False, True):
+            ref = P.bspline(P.LieTensor(Xd.clone(), ltype=P.SE3_type), 0.4, extrapolate=ex).tensor()
+            for name, v, buf in view_variants(Xd):
+                case = {"kind": "views", "fn": "bspline", "dtype": dtype, "view": name, "extrapolate": ex}
+                snap = buf.clone()
+                ctx.note_case(("views", "bspline", dtype, name, ex), True)
+                ctx.count("views.bspline")
+                try:
+                    out = P.bspline(P.LieTensor(v, ltype=P.SE3_type), 0.4, extrapolate=ex)
+                    if not close_or_equal(out, ref, 64 * eps * 10):
+                        ctx.fail(case, f"views: bspline on a {name} view differs from the call on a contiguous copy")
+                    if not torch.equal(buf, snap):
+                        ctx.fail(case, f"views-mutation: bspline wrote into the caller's buffer ({name})")
+                except Exception as e:
+                    ctx.fail(case, f"views-raises: bspline raised on a {name} view: {excs(e)}")
+            case = {"kind": "views", "fn": "bspline", "dtype": dtype, "view": "expanded batch", "extrapolate": ex}
+            try:
+                one = P.LieTensor(Xd[0].clone(), ltype=P.SE3_type)
+                out = P.bspline(P.LieTensor(one.tensor().expand(3, 6, 7), ltype=P.SE3_type), 0.4, extrapolate=ex).tensor()
+                if not all(close_or_equal(out[i], ref[0], 64 * eps * 10) for i in range(3)) or not torch.equal(one.tensor(), Xd[0]):
+                    ctx.fail(case, "views: bspline on an expanded (stride-0) batch differs from the single item / changed it")
+            except Exception as e:
+                ctx.fail(case, f"views-raises: bspline raised on an expanded batch: {excs(e)}")
+        # geodesic: views + the same tensor for both arguments
+        q = torch.tensor(np.stack([R.walk(rnd, 5, 1.0, 1.0), R.walk(rnd, 5, 1.0, 1.0)])).to(D_)
+        ref = P.geodesic_loss(P.LieTensor(q[0].clone(), ltype=P.SE3_type), P.LieTensor(q[1].clone(), ltype=P.SE3_type), reduction="none")
+        for name, v, buf in view_variants(q):
+            case = {"kind": "views", "fn": "geodesic_loss", "dtype": dtype, "view": name}
+            snap = buf.clone()
+            ctx.note_case(("views", "geo", dtype, name), True)
+            ctx.count("views.geo")
+            try:
+                out = P.geodesic_loss(P.LieTensor(v[0], ltype=P.SE3_type), P.LieTensor(v[1], ltype=P.SE3_type), reduction="none")
+                if not close_or_equal(out, ref, 8 * eps) or not torch.equal(buf, snap):
+                    ctx.fail(case, f"views: geodesic_loss on {name} views differs from contiguous copies / wrote into the buffer")
+            except Exception as e:
+                ctx.fail(case, f"views-raises: geodesic_loss raised on {name} views: {excs(e)}")
+        xs = P.LieTensor(q[0].clone(), ltype=P.SE3_type)
+        case = {"kind": "views", "fn": "geodesic_loss", "dtype": dtype, "view": "same tensor twice"}
+        try:
+            for rd in ("none", "mean", "sum"):
+                z = P.geodesic_loss(xs, xs, reduction=rd)
+                if not bool((z.double().abs() <= 24 * eps * (5 if rd == "sum" else 1)).all()):
+                    ctx.fail(case, f"alias: geodesic_loss(x, x, reduction={rd!r}) = {z!r}, expected 0")
+        except Exception as e:
+            ctx.fail(case, f"views-raises: geodesic_loss(x, x) raised: {excs(e)}")
+    # ape / rpe: stamps and poses as views of larger buffers; the same objects as reference and estimate
+    M = 10
+    ref_p = torch.tensor(R.walk(rnd, M, 1.0, 0.4))
+    est_p = torch.tensor(R.walk(rnd, M, 1.0, 0.4))
+    st = torch.arange(M, dtype=torch.float64) * 0.1 + 5.0
+    kw1 = dict(etype="pose", align=True, scale=True)
+    kw2 = dict(etype="radian", associate="distance", delta=0.8, all=True, offset=0.002)
+    with warnings.catch_warnings():
+        warnings.simplefilter("ignore")
+        want1 = A.ape(st.clone(), P.SE3(ref_p.clone()), (st + 0.001).clone(), P.SE3(est_p.clone()), **kw1)
+        want2 = A.rpe(st.clone(), P.SE3(ref_p.clone()), (st - 0.001).clone(), P.SE3(est_p.clone()), **kw2)
+    sbuf = torch.full((2 * M + 3,), -1.0, dtype=torch.float64)
+    sbuf[1:2 * M + 1:2] = st
+    sv = sbuf[1:2 * M + 1:2]
+    for (name, rv, rbuf), (_, ev, ebuf) in zip(view_variants(ref_p), view_variants(est_p)):
+        case = {"kind": "views", "fn": "ape/rpe", "view": name}
+        snaps = [b_.clone() for b_ in (rbuf, ebuf, sbuf)]
+        ctx.note_case(("views", "traj", name), True)
+        ctx.count("views.traj")
+        try:
+            with warnings.catch_warnings():
+                warnings.simplefilter("ignore")
+                g1 = A.ape(sv, P.SE3(rv), sv + 0.001, P.SE3(ev), **kw1)
+                g2 = A.rpe(sv, P.SE3(rv), sv - 0.001, P.SE3(ev), **kw2)
+            for g, w, fn_ in ((g1, want1, "ape"), (g2, want2, "rpe")):
+                if any(not close_or_equal(g[k_], w[k_], 1e3 * EPS64) for k_ in STAT_KEYS):
+                    ctx.fail(case, f"views: {fn_} on {name} views of the poses / strided stamps differs from the call on contiguous copies")
+            if not all(torch.equal(b_, s_) for b_, s_ in zip((rbuf, ebuf, sbuf), snaps)):
+                ctx.fail(case, f"views-mutation: ape/rpe wrote into a caller's buffer ({name})")
+        except Exception as e:
+            ctx.fail(case, f"views-raises: ape/rpe raised on {name} views: {excs(e)}")
+    case = {"kind": "views", "fn": "ape/rpe", "view": "same objects as reference and estimate"}
+    try:
+        Pz = P.SE3(ref_p.clone())
+        for kw in (dict(), dict(align=True), dict(scale=True, align=True), dict(origin=True), dict(offset=0.0, etype="pose"), dict(etype="radian")):
+            with warnings.catch_warnings():
+                warnings.simplefilter("ignore")
+                z1 = A.ape(st, Pz, st, Pz, **kw)
+                z2 = A.rpe(st, Pz, st, Pz, **kw)
+            for z, fn_ in ((z1, "ape"), (z2, "rpe")):
+                wv = max(abs(float(z[k_])) for k_ in STAT_KEYS if k_ != "SSE" and not math.isnan(float(z[k_])))
+                if not wv <= 1e5 * EPS64:
+                    ctx.fail(case | {"kwargs": {k_: str(v_) for k_, v_ in kw.items()}}, f"alias: {fn_}(s, P, s, P, {kw}) with the very same objects gives non-zero statistics (max {wv:.3e})")
+        if not torch.equal(Pz.tensor(), ref_p):
+            ctx.fail(case, "alias: ape/rpe changed the shared pose object")
+    except Exception as e:
+        ctx.fail(case, f"views-raises: ape/rpe raised with aliased arguments: {excs(e)}")
+
+
 # ============================================================================= entry points
 
 def run(ctx: Ctx):
     torch.set_num_threads(2)
     mb = MB()
+    guard(ctx, {"kind": "corpus"}, "corpus", lambda: run_corpus(ctx, mb))       # deterministic, first
+    guard(ctx, {"kind": "history"}, "history", lambda: run_history(ctx, mb))
+    guard(ctx, {"kind": "stale"}, "stale", lambda: run_stale(ctx))
+    guard(ctx, {"kind": "views"}, "views", lambda: run_views(ctx))
     run_chs(ctx, mb, ctx.pick(90, 1000))
-    run_bs(ctx, mb, ctx.pick(70, 750))
-    run_geo(ctx, mb, ctx.pick(100, 1200))
-    run_traj(ctx, mb, ctx.pick(100, 1000))
+    run_bs(ctx, mb, ctx.pick(50, 750))
+    run_geo(ctx, mb, ctx.pick(80, 1200))
+    run_traj(ctx, mb, ctx.pick(60, 1000))
     mb.flush(ctx)
 
 
@@ -1490,6 +1933,9 @@ def replay(ctx: Ctx, case) -> bool:
         check_geo(ctx, c, mb)
     elif kind == "traj":
         check_traj(ctx, c, mb)
+    elif kind in ("stale", "views", "history", "corpus"):
+        {"stale": lambda: run_stale(ctx), "views": lambda: run_views(ctx), "history": lambda: run_history(ctx, mb),
+         "corpus": lambda: run_corpus(ctx, mb)}[kind]()
     else:
         print("  (malformed-input case: re-running the malformed streams)")
         run_chs(ctx, mb, 0)
